@@ -162,7 +162,7 @@ func (e *env) do(s reqSpec) drive.Resp {
 	if s.B64 {
 		body, _ = base64.StdEncoding.DecodeString(s.Body)
 	} else {
-		body = []byte(s.Body)
+		body = []byte(e.resolve(s.Body)) // node placeholders may appear in JSON bodies (merge parents)
 	}
 	return e.note(drive.Do(s.M, e.resolve(s.Path), body), s.M, s.Path)
 }
@@ -317,8 +317,10 @@ func runConcurrent(c *c11Case) (*outcome, error) {
 			opts.ExtraSites = []string{"filelog.Append:"}
 		}
 		o.Sched = drive.RunScheduled(fns, c.Schedule, opts)
-		if err := o.Sched.SchedErr(); err != nil {
-			return nil, err
+		if o.Sched.Stuck {
+			// nothing of the harness holds the request goroutines any more (parking is disabled, everything was
+			// released): they wait for each other inside the code under test
+			return nil, stats.Violf("C11/"+c.Family+"/"+c.Shape+"/wedged", "the requests never returned although the scheduler released every parked goroutine and stopped parking: deadlock in the code under test; trace: %s", o.Sched.TraceString())
 		}
 		if o.Sched.TimedOut {
 			return nil, fmt.Errorf("scheduler watchdog fired (requests did not finish within the bound under schedule control); trace: %s", o.Sched.TraceString())
